@@ -161,6 +161,13 @@ def opSSplit (args : List String) : String :=
     let ws := mkWriters d ft fun _ => true
     let r := St.split d p src ws size
     s!"{optErr r.err} {wrSummary r.writers}"
+  | [ds, ps, szs, sls, fts, seeds, nws] =>      -- with an explicit number of writers
+    let d := ds.toNat!; let p := ps.toNat!; let size := szs.toNat!; let srclen := sls.toNat!; let seed := UInt64.ofNat seeds.toNat!
+    let ft := parseFault fts
+    let src : St.Rd := ⟨listOfBytes (fillBytes seed 0 srclen), if ft.kind == "r" then some ft.at_ else none⟩
+    let ws := mkWriters nws.toNat! ft fun _ => true
+    let r := St.split d p src ws size
+    s!"{optErr r.err} {wrSummary r.writers}"
   | _ => "bad-op"
 
 -- sjoin <d> <p> <L> <outSize> <nshards> <fault> <seed>
